@@ -219,10 +219,20 @@ package shmipc
 // sessOK: what newSession establishes for a session that reached the event phase and is not torn down.
 // Deliberately NOT included: s.manager and s.listener (nil for sessions not created by a
 // SessionManager / Listener), so events arriving "in the wrong direction" stay inside the quantifier.
-//@ pure sessOK(s *Session): bool = s.logger != nil && s.config != nil && s.streams != nil && s.dispatcher != nil
-//@ |  && s.queueManager != nil && s.bufferManager != nil
-//@ |  && s.queueManager.recvQueue != nil && s.queueManager.sendQueue != nil
+// Object invariants: these fields are set to non-nil values by the constructors and never overwritten
+// with nil (checked at every store and at the end of every function that allocates the object).
+//@ nonnil Stream.session, Stream.recvBuf, Stream.sendBuf, Stream.pendingData
+//@ nonnil linkedBuffer.sliceList, linkedBuffer.pinnedList
+//@ nonnil Session.logger, Session.config
+//@ nonnil queueManager.sendQueue, queueManager.recvQueue
+//@ nonnil queue.head, queue.tail, queue.workingFlag
+//@ nonnil bufferList.size, bufferList.cap, bufferList.head, bufferList.tail, bufferList.capPerBuffer, bufferList.counter
+//@ pure qDisjoint(a *queue, b *queue): bool = region(a.queueBytesOnMemory) != region(b.queueBytesOnMemory)
+//@ |  || off(a.queueBytesOnMemory) + len(a.queueBytesOnMemory) <= poff(b.head) || off(b.queueBytesOnMemory) + len(b.queueBytesOnMemory) <= poff(a.head)
+//@ pure sessOK(s *Session): bool = s.streams != nil && s.dispatcher != nil
+//@ |  && s.queueManager != nil && s.bufferManager != nil && len(s.bufferManager.mem) < 4294967296
 //@ |  && wfQueue(s.queueManager.recvQueue) && wfQueue(s.queueManager.sendQueue)
+//@ |  && qDisjoint(s.queueManager.recvQueue, s.queueManager.sendQueue)
 //@ |  && s.communicationVersion <= 3
 
 //@ func checkEventValid
@@ -261,20 +271,91 @@ package shmipc
 //@   loop 1 invariant sessOK(s)
 
 //@ func (*Session).handleEvents
+//@   unreachable-returns 1   // 'msgType >= len(protocolHandlers)' is dead code after checkEventValid (types 0..9, table length 10)
 //@   preserves sessOK(s)
 //@   ensures  0 <= consumed && consumed <= len(buf)
 //@   loop 0 invariant 0 <= consumed && consumed <= len(buf) && sessOK(s)
 
 //@ func (*Session).getStream
 //@   preserves sessOK(s)
-//@   ensures  stream != nil ==> stream.session == s && stream.recvBuf != nil && stream.pendingData != nil
 
 //@ func (*Session).getStreamById
 //@   preserves sessOK(s)
 
 //@ func (*Session).handleStreamMessage
 //@   preserves sessOK(s)
-//@   requires stream != nil && stream.session == s && stream.pendingData != nil && stream.recvBuf != nil
+//@   requires stream != nil
 
 //@ func (*Stream).halfClose
+//@   modifies heap
+
+// the data path below the event handlers (verified under C06/C08/C09, used here by contract only)
+//@ func (*Stream).fillDataToReadBuffer
+//@   modifies heap
+
+//@ func newStream
+//@   requires session != nil
+//@   ensures  result != nil && fresh(result) && result.session == session && result.id == id && result.recvBuf != nil && result.sendBuf != nil && result.pendingData != nil
+//@   ensures  result.state == 0
+//@   modifies nothing
+
+//@ func (*bufferManager).readBufferSlice
+//@   requires len(b.mem) < 4294967296   // a mapping is at most 4 GiB (its size is a uint32)
+//@   assume   offset + 20 + mem32(b.mem, offset) < 4294967296   // environment: headers written by the peer are sane (same code on both sides)
+//@   ensures  r1 == nil ==> r0 != nil && r0.isFromShm && r0.offsetInShm == offset && len(r0.bufferHeader) == 20 && sameMem(r0.bufferHeader, b.mem, offset)
+//@   ensures  r1 == nil ==> offset + 20 < len(b.mem) && sameMem(r0.data, b.mem, offset + 20) && len(r0.data) == mem32(b.mem, offset) && offset + 20 + len(r0.data) <= len(b.mem)
+//@   ensures  r1 == nil ==> fresh(r0) && r0.nextSlice == nil
+//@   ensures  r1 != nil ==> r0 == nil
+//@   modifies nothing
+
+//@ func (*bufferManager).recycleBuffers
+//@   modifies heap
+
+// --- handshake phase (blocking reads on the raw connection) ---
+//@ func blockReadFull
+//@   loop 0 invariant 0 <= readSize && readSize <= len(data)
+//@   modifies data[0:len(data)]
+
+//@ func blockWriteFull
+//@   loop 0 invariant 0 <= written && written <= len(data)
+//@   modifies nothing
+
+//@ func blockReadEventHeader
+//@   ensures  r1 == nil ==> len(r0) == 8 && be16(r0, 4) == 30552 && mem8(r0, 6) != 0 && mem8(r0, 7) <= 9
+//@   ensures  r1 != nil ==> isnil(r0)
+
+//@ func waitEventHeader
+//@   ensures  r1 == nil ==> len(r0) == 8 && mem8(r0, 7) == expectEventType && mem8(r0, 6) != 0
+//@   ensures  r1 != nil ==> isnil(r0)
+
+//@ func (*Session).extractShmMetadata
+//@   modifies nothing
+
+//@ func handleShareMemoryByFilePath
+//@   requires s != nil && len(hdr) >= 8
+//@   modifies heap
+
+//@ func handleShareMemoryByMemFd
+//@   requires s != nil && len(h) >= 8
+//@   modifies heap
+
+//@ func handleExchangeVersion
+//@   requires s != nil && len(h) >= 8
+//@   modifies s.communicationVersion
+
+// constructors of the shared-memory managers (layout verified under C03; used here by contract only)
+//@ func mappingQueueManager
+//@   ensures  r1 == nil ==> r0 != nil
+//@   modifies heap
+
+//@ func mappingQueueManagerMemfd
+//@   ensures  r1 == nil ==> r0 != nil
+//@   modifies heap
+
+//@ func getGlobalBufferManager
+//@   ensures  r1 == nil ==> r0 != nil
+//@   modifies heap
+
+//@ func getGlobalBufferManagerWithMemFd
+//@   ensures  r1 == nil ==> r0 != nil
 //@   modifies heap
